@@ -12,9 +12,9 @@ META = {
              'comprehension starts at for/async, match_case at case, decorated defs bloc starts at the first "@"; children inside parents, siblings ordered without overlap; '
              'pars(): the count must equal the number of enclosing ( ) pairs that the PARSER judges to be redundant grouping parentheses (replace the pair interior by _x_: '
              'source with the pair kept and with it dropped must parse to the same structure); find_in_loc / find_contains_loc(True/False/"top") / find_loc compared with a '
-             'brute-force scan over all nodes for rectangles from all token boundaries (+ random off-token ones). A cell is (check, node class, layout class). Searches are started from the root and from sampled non-root nodes (brute force restricted to the start node\'s subtree); rectangles include those sharing the start and end COLUMN of a multi-line node on a different line; find_loc without an exact match must return the find_in_loc answer if there is one, else the find_contains_loc answer (documented preference).'),
+             'brute-force scan over all nodes for rectangles from all token boundaries (+ random off-token ones). A cell is (check, node class, layout class). Searches are started from the root and from sampled non-root nodes (brute force restricted to the start node\'s subtree); rectangles include those sharing the start and end COLUMN of a multi-line node on a different line; find_loc without an exact match must return the find_in_loc answer if there is one, else the find_contains_loc answer (documented preference). Every location clause is also evaluated on LIVE trees after 1-3 random structured edits (location caches primed first; REAL windows and the GRAMMAR programs): when the edited tree is structurally in sync with its source, each node's loc must equal the positions of an independent CPython parse of the current source and lie on token boundaries (a stale cached or incrementally offset location is a violation here as well as under C01/C02); a pars() probe whose substituted text CPython rejects is inconclusive and not judged.'),
     'budget': {'quick': 45, 'thorough': 900},
-    'floors': {'quick': {'search_start_nodes_below_root': 2500, 'nodes_located': 60000, 'pars_judged': 10000, 'search_rects': 30000, 'operators_checked': 1500},
+    'floors': {'quick': {'edited_trees_judged': 400, 'search_start_nodes_below_root': 2500, 'nodes_located': 60000, 'pars_judged': 10000, 'search_rects': 30000, 'operators_checked': 1500},
                'thorough': {'search_start_nodes_below_root': 15000, 'nodes_located': 1500000, 'pars_judged': 250000, 'search_rects': 800000, 'operators_checked': 40000}},
     'assumptions': ['tokenize and ast positions of CPython are the reference', 'ownership of parentheses is decided by CPython\'s parser on a substituted source'],
     'technique': 'runtime monitoring: query-time oracle from tokenize/ast positions + brute-force search reference',
@@ -37,15 +37,16 @@ def offs_table(lines):
     return t
 
 
-def run_program(ctx, FST, src, label, rnd, do_search=True):
+def run_program(ctx, FST, src, label, rnd, do_search=True, root=None, edited_case=None):
     from ..base import short, refparse
     base, _ = refparse(src)
     if base is None:
         return
-    try:
-        root = FST(src, 'exec')
-    except Exception:
-        return
+    if root is None:
+        try:
+            root = FST(src, 'exec')
+        except Exception:
+            return
     lines = src.split('\n')
     ot = offs_table(lines)
     off = lambda ln, col: ot[ln] + col
@@ -64,6 +65,9 @@ def run_program(ctx, FST, src, label, rnd, do_search=True):
     mb = len(src) != len(src.encode())
     layout = 'mb' if mb else 'ascii'
     case = {'src': src if len(src) < 4000 else None, 'label': label}
+    if edited_case:
+        case = dict(edited_case, label=label)
+        ctx.count('edited_trees_judged')
     in_f = set()
     for n in ast.walk(root.a):
         if isinstance(n, (ast.JoinedStr, ast.FormattedValue)) or type(n).__name__ in ('TemplateStr', 'Interpolation'):
@@ -78,6 +82,10 @@ def run_program(ctx, FST, src, label, rnd, do_search=True):
     def b2c(ln, b):
         return len(lines[ln].encode()[:b].decode())
 
+    # a live (edited) tree is judged against the positions of an independent CPython parse of its current source (same structure:
+    # the caller checked the C01 oracle); a freshly built tree's own ast positions ARE that parse (C05)
+    twin = {id(x): y for x, y in zip(ast.walk(root.a), ast.walk(base))} if edited_case else {}
+
     for f in nodes:
         a = f.a
         loc = f.loc
@@ -91,7 +99,8 @@ def run_program(ctx, FST, src, label, rnd, do_search=True):
         fstr = id(a) in in_f
         # (1) reference positions
         if hasattr(a, 'lineno') and not isinstance(a, ast.Module):
-            want = (a.lineno - 1, b2c(a.lineno - 1, a.col_offset), a.end_lineno - 1, b2c(a.end_lineno - 1, a.end_col_offset))
+            ra = twin.get(id(a), a)
+            want = (ra.lineno - 1, b2c(ra.lineno - 1, ra.col_offset), ra.end_lineno - 1, b2c(ra.end_lineno - 1, ra.end_col_offset))
             # reference positions come from an independent parse: same path in `base`
             if tuple(loc) != want:
                 ctx.violation(f'loc-differs-from-ast-positions:{cls}', f'{label}: {cls} loc {tuple(loc)} != byte->char conversion of its ast positions {want}; text={short(f.src, 60)!r}', case)
@@ -213,7 +222,14 @@ def judge_pars(ctx, f, src, s0, s1, tpos, label, case, cls, layout):
             post = ' ' if a1 < len(src) and (src[a1].isalnum() or src[a1] == '_') else ''       # dropping them must not join identifiers/keywords
             kept = src[:a0] + pre + '(_x_)' + post + src[a1:]
             dropped = src[:a0] + pre + '_x_' + post + src[a1:]
-            if ast.dump(ast.parse(kept)) == ast.dump(ast.parse(dropped)):
+            try:
+                kept_tree = ast.parse(kept)
+            except (SyntaxError, ValueError):
+                # the probe itself is not valid Python although the real source is (CPython rejects '(_x_).i: int = 2' but accepts
+                # '(-n).i: int = 2'): the parser cannot be asked about this pair - inconclusive, not judged
+                ctx.count('pars_probe_substitution_invalid(not judged)')
+                return
+            if ast.dump(kept_tree) == ast.dump(ast.parse(dropped)):
                 owned = k
             else:
                 break
@@ -372,6 +388,50 @@ def _search_from(ctx, root, located, rects, depth, parent_of, label, case, is_ro
                     ctx.violation('find_loc-differs-from-documented-preference', f'{label}: {root!r}.find_loc{(ln, col, end_ln, end_col)} exact_top={top} = {got!r}; no node has exactly this location, find_in_loc (brute force) = {inn!r}, find_contains_loc = {c!r}', dict(case, rect=[ln, col, end_ln, end_col]))
 
 
+def edited_program(ctx, FST, src, label, rnd, steps=None):
+    """The location oracle on a LIVE tree after 1-3 structured edits (the property speaks of every node with a location, not
+    only of freshly parsed trees): locations are cached and offset incrementally, so an edit can leave them stale."""
+    from .. import corpus, edits
+    from ..base import insync
+    try:
+        root = FST(src, 'exec')
+    except Exception:
+        return
+    done = []
+    if steps is None:
+        try:
+            donors = edits.donor_codes(FST(corpus.window(rnd, max_len=1200)[1], 'exec'), None, rnd)
+        except Exception:
+            donors = {}
+        for n in root.walk(True):   # prime the location caches so that stale entries can exist at all
+            n.loc, n.bloc
+        for _ in range(rnd.choice([1, 1, 2, 3])):
+            step = edits.gen_step(rnd, root, donors, None, norm=True, with_par=True)
+            if step is None:
+                break
+            before = root.src
+            try:
+                edits.apply_step(root, step, FST)
+            except Exception:
+                ctx.count('edit_step_raised')
+                if root.src != before:
+                    return
+                continue
+            done.append(step)
+    else:
+        for step in steps:
+            edits.apply_step(root, step, FST)
+            done.append(step)
+    if not done:
+        return
+    from ..base import refparse
+    base, _ = refparse(root.src)
+    if base is None or ast.dump(base) != ast.dump(root.a):
+        ctx.count('edited_tree_structure_not_in_sync(C01 territory, not judged)')   # positions are judged below, against the independent parse
+        return
+    run_program(ctx, FST, root.src, label + '+edited', rnd, do_search=False, root=root, edited_case={'src': src, 'steps': done, 'component': 'edited'})
+
+
 def run(ctx):
     from fst import FST
     from .. import corpus
@@ -388,11 +448,19 @@ def run(ctx):
                 src = s2
         if r < 0.7:
             src, _ = corpus.relayout(src, ctx.rnd, kinds=['parens', 'comments', 'continuation', 'tabs', 'semicolons', 'comment_lines'], n=3)
+        if ctx.rnd.random() < 0.3:
+            if ctx.rnd.random() < 0.5:   # small programs of every statement / header kind (decorator lists, handlers, match, PEP 695 ...): an edit reaches each kind of incremental offsetting
+                gi = ctx.rnd.randrange(len(corpus.GRAMMAR_PROGRAMS))
+                fn, src = f'GRAMMAR[{gi}]', corpus.GRAMMAR_PROGRAMS[gi]
+            edited_program(ctx, FST, src, fn, ctx.rnd)
+            continue
         run_program(ctx, FST, src, fn, ctx.rnd, do_search=ctx.rnd.random() < 0.5)
 
 
 def replay(ctx, case):
     from fst import FST
     import random
+    if case.get('component') == 'edited':
+        return edited_program(ctx, FST, case['src'], 'replay', random.Random(0), steps=case['steps'])
     if case.get('src'):
         run_program(ctx, FST, case['src'], case.get('label', 'replay'), random.Random(0))
